@@ -12,7 +12,9 @@ for name in sorted(os.listdir(os.path.join(HERE, "seeded"))):
     v = d.get("violation", "")
     chk = v[v.find("[") + 1: v.find("]")] if "[" in v else ""
     first = "missed, caught after strengthening" if m.get("missed_by_first_version_of_the_check") else "caught"
-    rows.append(f"| {name} | {', '.join(os.path.basename(f) for f in m['files_changed'])} | {m['needs_to_manifest']} | {first} | {d.get('check','')}:`{chk}` ({d.get('secs_to_violation','?')} s) |")
+    if m.get("claimed") is False:
+        first = "not claimed"
+    rows.append(f"| {name} | {', '.join(os.path.basename(f) for f in m['files_changed'])} | {m['needs_to_manifest']} | {first} | {d.get('check') or '-'}:`{chk}` ({d.get('secs_to_violation','?')} s) |")
 print("| change | file(s) | what it is / what it needs to manifest | first version of the check | caught by (quick tier, seed 1) |")
 print("|---|---|---|---|---|")
 print("\n".join(rows))
